@@ -283,7 +283,11 @@ def execute_factory(cfg):
             last_raised = raised is not None
             # queries between the calls (their results are discarded): a cached / derived view that is
             # not refreshed by a later mutation would make the final observation stale
-            list(mm.resources()); list(mm.windows()); list(mm.window_patterns()); list(mm.all_resources())
+            try:
+                list(mm.resources()); list(mm.windows()); list(mm.window_patterns()); list(mm.all_resources())
+            except Exception as e:
+                if last:
+                    err = err or dict(msg=f"a query after {op} failed: {type(e).__name__}: {e}", signature=dict(kind="oracle", what="internal_error"))
             failed_name = failed_obj = None
             if raised is not None and kind in ("res", "win"):
                 failed_name = (f"p{pos}",)
